@@ -175,10 +175,13 @@ CLAIMED['C19'] = dict(
          'a FRESH interpreter.  TLC replays the history through DecodeHistory!ImplStep (CacheStep: model state = real '
          'caches at every step) and judges SameAsFresh, Repeatable, NoForeignValue; random histories of 10-40 decodes '
          '(damaged, header-damaged, hidden, shipped-plugin PELs) and directories shown in both orders and file by '
-         'file go through the same judge.',
-    design='DESIGN.md 4.6, 5 C19',
+         'file go through the same judge.  DecodeHistoryProof.tla proves HistoryIndependent and NoPoisoning with the '
+         'TLA+ proof system for every history length and every set of present / absent / broken modules (60 '
+         'obligations, re-checked on every run); a message registry is part of the environment so that messages '
+         'filled from one log\'s words cannot leak into the next.',
+    design='DESIGN.md 4.6, 5 C19, 17',
     note='The fresh-interpreter decode is the oracle document.  Sentinels are unique ids / serial numbers per PEL.',
-    technique='TLC model checking of DecodeHistory.tla + TLC-generated histories replayed into one interpreter, cache state and documents validated by TLC against the spec and a fresh-interpreter oracle')
+    technique='TLC model checking of DecodeHistory.tla + TLAPS proof of history independence (unbounded) + TLC-generated histories replayed into one interpreter, cache state and documents validated by TLC against the spec and a fresh-interpreter oracle')
 
 CLAIMED['C08'] = dict(
     text='Listing.tla models the listing loop of -l / -a / -n (sorted top-level file list, per-file decode inside an '
